@@ -277,14 +277,19 @@ impl<T> ArcSentJournal<T> {
 
     /// Return a [`SentRotateGuard`] to resolve the ack frame from peer.
     pub fn rotate(&self) -> SentRotateGuard<'_, T> {
-        SentRotateGuard {
-            inner: self.0.lock().unwrap(),
-        }
+        #[cfg(not(genmeta_gm_quic_verif))]
+        let inner = self.0.lock().unwrap();
+        #[cfg(genmeta_gm_quic_verif)]
+        let inner = qbase::verif::lock_visible(&self.0, "blocked:sent-journal/rotate").unwrap();
+        SentRotateGuard { inner }
     }
 
     /// Return a [`NewPacketGuard`] to get the next pn and record frames in the packet.
     pub fn new_packet(&self) -> NewPacketGuard<'_, T> {
+        #[cfg(not(genmeta_gm_quic_verif))]
         let inner = self.0.lock().unwrap();
+        #[cfg(genmeta_gm_quic_verif)]
+        let inner = qbase::verif::lock_visible(&self.0, "blocked:sent-journal/new_packet").unwrap();
         let origin_len = inner.queue.len();
         NewPacketGuard {
             trivial: false,
